@@ -24,8 +24,13 @@ def qparse(s):
     return Fraction(int(a), int(b))
 
 
+def prog_form(job):
+    return job.get("form", "behavior")
+
+
 def make_job(prog, name):
-    return dict(name=name, src=P.source(prog), maxSteps=prog["maxSteps"], ast=P.to_json(prog), max_paths=5000)
+    return dict(name=name, src=P.source(prog), maxSteps=prog["maxSteps"], ast=P.to_json(prog), max_paths=5000,
+                form=prog.get("form", "behavior"))
 
 
 def run_jobs(jobs):
@@ -38,7 +43,7 @@ def run_jobs(jobs):
     return {r["name"]: r for r in results}
 
 
-def judge(exe, job, res):
+def judge(exe, job, res, stats=None):
     bad = []
     prog = P.from_json(job["ast"])
     for k in ("compile_error", "unsupported", "crash"):
@@ -71,7 +76,7 @@ def judge(exe, job, res):
     agg = {}
     for lg, p, o in runs:
         agg[o] = agg.get(o, Fraction(0)) + qparse(p)
-    spec = P.spec_distribution(prog)
+    spec = P.spec_distribution(prog, stats)
     if spec != agg:
         keys = sorted(set(spec) | set(agg))
         diff = [(k, str(spec.get(k, 0)), str(agg.get(k, 0))) for k in keys if spec.get(k, 0) != agg.get(k, 0)]
@@ -111,7 +116,11 @@ def main():
         if res is None:
             c.violation("harness", "no result for program", dict(job=job), no_input=True)
             continue
-        bad, npaths = judge(exe, job, res)
+        stats = {}
+        bad, npaths = judge(exe, job, res, stats)
+        for k in stats:                      # programs in which such a pick is reached (spec evaluator)
+            c.hist(k)
+        c.hist("form:" + prog_form(job))
         prog = P.from_json(job["ast"])
         kinds = [st[0] for b in prog["behaviors"] for st in b["body"]]
         c.count(job["src"], nontrivial=(npaths > 1 and any(k in ("choose", "shuffle") for k in kinds)))
